@@ -102,6 +102,9 @@ def render_operand(p, a, asy, names):
     else:
         probe = OPS[a.op][2 if asy else 1]
     call = "%s(%d)" % (probe, a.id)
+    if a.op == "Src" and a.id % 4 == 1 and not a.cap:
+        # an initial value that binds weaker than a method call (a cast to its own type): still part of its branch
+        call += " as %s" % ("Ov" if p.opt else ("BF" if asy else "Rv"))
     if a.cap:
         snaps = "".join(" %s(%d, &%s);" % ("snapo" if p.opt else "snap", sid, names[b]) for sid, b in a.snaps)
         # every third capture is spelled as a labelled block (still a block expression)
